@@ -231,12 +231,18 @@ def check_config(cfg, ops, tmp, ls):
     # materialise file paths
     shared_path = os.path.join(tmp, "log-shared.log")
     nshare = [0]
+    dot_used = []
     for sec in cfg:
         for i, h in enumerate(sec["handlers"]):
             if h["path"] == "FILE" and (h.get("share") or (nshare[0] == 0 and any(hh.get("share") for s2 in cfg for hh in s2["handlers"])
                                                              and ref_handler(h) == "file")):
                 h["path_text"] = shared_path
                 nshare[0] += 1
+            elif h["path"] == "FILE" and h.get("dotname") and not dot_used:
+                # a file in the working directory (which is the scratch directory for the duration
+                # of the case) whose NAME is that of a standard stream: './STDOUT' is a file
+                h["path_text"] = "./" + h["dotname"]
+                dot_used.append(1)
             elif h["path"] == "FILE":
                 h["path_text"] = os.path.join(tmp, "log-%s-%d.log" % (sec.get("name") or "root", i))
             elif h["path"] == "MISSINGDIR":
@@ -627,6 +633,8 @@ def gen_format(rng, style):
 
 def gen_handler(rng):
     h = {"path": rng.choice(["STDOUT", "STDERR", "FILE", "FILE", "FILE"])}
+    if h["path"] == "FILE" and rng.random() < 0.12:
+        h["dotname"] = rng.choice(["STDOUT", "STDERR"])
     r = rng.random()
     if r < 0.45:
         pass
@@ -802,9 +810,12 @@ def run_configure(cfg):
 
 def run_case(cfg, ops):
     with LogState() as ls:
+        old_cwd = os.getcwd()
+        os.chdir(ls.tmp)
         try:
             return check_config(cfg, ops, ls.tmp, ls)
         finally:
+            os.chdir(old_cwd)
             gc.collect()
 
 
